@@ -376,6 +376,11 @@ func init() {
 			}
 			for i := 0; i < engines; i++ {
 				ls, lines := genStorage(g, engineRule, 60)
+				if i%10 == 9 {
+					// a list saved with a byte order mark: whatever the scanner does with it, the indexes it reports are
+					// the offsets retrieval reads from (decided by the linear-scan oracle)
+					ls[g.Intn(len(ls))].content = "\xef\xbb\xbf" + ls[0].content
+				}
 				var reqs []Req
 				for j := 0; j < nreq; j++ {
 					reqs = append(reqs, engineURLReq(g, lines))
@@ -521,6 +526,11 @@ func init() {
 			p := Pick(g, collidingHosts)
 			return Pick(g, hostsIPs) + " " + p[g.Intn(2)]
 		case 4:
+			if g.Chance(1, 3) {
+				// single-token lines that are NOT domain names (a TLD with digits or hyphens) although an earlier label is
+				// punycode: pattern rules, not hosts entries
+				return Pick(g, []string{"xn--e1afmkfd.p2p", "xn--80ak6aa92e.i2p", "xn--e1afmkfd.example.1337", "xn--e1afmkfd.xn--p1ai", "a.xn--e1afmkfd.b-1", "xn--e1afmkfd.x1"})
+			}
 			return Pick(g, hostsNames[:4])
 		case 5:
 			p := Pick(g, collidingHosts)
@@ -572,6 +582,11 @@ func init() {
 					nm := Pick(g, []string{"b\u00fccher.example", "m\u00fcller-ads.example", "\u043f\u0440\u0438\u043c\u0435\u0440.\u0440\u0444", "caf\u00e9.fr", "\u00fc.de"})
 					ls[0].content += Pick(g, []string{"||", "@@||"}) + nm + "^" + Pick(g, []string{"", "$important", "$dnstype=A"}) + "\n" + Pick(g, hostsIPs) + " " + nm + "\n"
 					reqs = append(reqs, Req{Kind: "host", Hostname: nm}, Req{Kind: "host", Hostname: "www." + nm, DNSType: 1})
+				}
+				for _, nm := range []string{"xn--e1afmkfd.p2p", "xn--80ak6aa92e.i2p", "xn--e1afmkfd.example.1337", "www.xn--e1afmkfd.p2p"} {
+					if strings.Contains(ls[0].content+ls[len(ls)-1].content, strings.TrimPrefix(nm, "www.")) {
+						reqs = append(reqs, Req{Kind: "host", Hostname: nm})
+					}
 				}
 				// a name in which every lookup window occurs twice (search-list expansion "name.name"): each rule once
 				for j := 0; j < 3; j++ {
@@ -697,7 +712,7 @@ func init() {
 	})
 
 	// ---------------- C15 ----------------
-	cosHosts := []string{"myblog.blogspot.com", "www.myblog.blogspot.com", "user.github.io", "app.localhost", "printer.lan", "example.org", "sub.example.org", "a.sub.example.org", "example.com", "shop.example.org", "www.shop.example.org", "other.net", "example.co.uk", "www.example.de", "notexample.org", "org", "localhost", "google.com", "www.google.co.uk", "a.google.b.notgoogle.com"}
+	cosHosts := []string{"eshop.org", "www.eshop.org", "ample.org", "myblog.blogspot.com", "www.myblog.blogspot.com", "user.github.io", "app.localhost", "printer.lan", "example.org", "sub.example.org", "a.sub.example.org", "example.com", "shop.example.org", "www.shop.example.org", "other.net", "example.co.uk", "www.example.de", "notexample.org", "org", "localhost", "google.com", "www.google.co.uk", "a.google.b.notgoogle.com"}
 	cosLine := func(g *Gen) string {
 		findCollisions()
 		sel := Pick(g, []string{".ad", ".banner", "#top", ".x", "div.promo", ".wide", ".noshop"})
@@ -715,6 +730,14 @@ func init() {
 		case 5, 6:
 			return joinVals(g, doms, 1, 2, 20, ",") + "#@#" + sel
 		case 7:
+			if g.Bool() {
+				// two names in one rule where one ends with the other's characters but is not below it
+				pr := Pick(g, [][2]string{{"ample.org", "example.org"}, {"shop.org", "eshop.org"}, {"xample.com", "example.com"}, {"le.org", "example.org"}})
+				if g.Bool() {
+					pr[0], pr[1] = pr[1], pr[0]
+				}
+				return pr[0] + "," + pr[1] + "##" + sel
+			}
 			return "~" + Pick(g, doms) + "##" + sel
 		case 8:
 			return Pick(g, []string{"example.org#$#x", "! c", "||example.org^", "example.org#?#" + sel, "#@#" + sel, "bad domain##x", "example.org##"})
